@@ -17,7 +17,7 @@ EPS = float(np.finfo(np.float64).eps)
 RULE = (
     "Hypothesis draws (mechanism, optional rename, dt, parameters, N points (v, gate states)); v is a "
     "50/50 mixture of floats(-200,200) (any double) and a singularity-directed strategy (each removable "
-    "singularity v_s of the rate expressions: exactly v_s, +-k ulps, +-10^-k). Every point is one oracle "
+    "singularity v_s of the rate expressions: exactly v_s, +-k ulps, +-10^-k, +-m*10^-k with any mantissa m in [1,10)). Every point is one oracle "
     "evaluation per gate. Non-trivial: |v-v_s|<1e-3, or |v|>100, or dt>100, or a state exactly 0 or 1; "
     "distinct = (mechanism, gate, 1 mV voltage bucket or 'sing', dt decade, state class). A tenth of "
     "the cases go through jx.integrate with a voltage clamp instead of calling update_states directly."
